@@ -122,7 +122,10 @@ var roles = map[string]map[string]int{
 // opFlags maps an operation to the generator feature flag that switches it
 // off (ev.Flag, default on). An operation that is switched off is redirected
 // to a replacement so the rest of the search continues.
-var opFlags = map[string]string{}
+var opFlags = map[string]string{
+	// RegistryImpl.CleanupStaleTransactions reads TransactionImpl.lastActiveTime without the transaction's lock
+	opRClean: "registry_cleanup_stale",
+}
 
 func weighted(t *rapid.T, w map[string]int, label string) string {
 	names := make([]string, 0, len(w))
